@@ -854,6 +854,21 @@ theorem createTime_pos {s : α} {su : SpeedUnit} {d : α} {du : DistanceUnit} {t
     have h3 := C09.ratio_cast_pos (α := α) _ (C09.time_wf baseTimeUnit tu)
     exact mul_pos (div_pos (mul_pos hn.2 h1) (mul_pos hn.1 h2)) h3
 
+/-- … and it is length over speed: for positive speed `s` (unit `su`) and length `d` (unit `du`)
+exactly `d / s` times the combined unit factor `C09.timeK su du tu` (which `C09.createTime_physical`
+shows to be the physical factor within 0.1 percent) -/
+theorem createTime_some_eq {s : α} {su : SpeedUnit} {d : α} {du : DistanceUnit} {tu : TimeUnit} {tv : α}
+    (h : createTime s su d du tu = some tv) :
+    0 < s ∧ 0 < d ∧ tv = d / s * (C09.timeK su du tu : α) := by
+  have hn : ¬ (s ≤ 0 ∨ d ≤ 0) := by
+    intro hc
+    rw [(C09.createTime_none_iff s su d du tu).2 hc] at h
+    cases h
+  simp only [not_or, not_le] at hn
+  rw [C09.createTime_def s su d du tu hn.1 hn.2] at h
+  cases h
+  exact ⟨hn.1, hn.2, rfl⟩
+
 /-- the time term is never negative: no hypothesis on lengths or speeds is needed, because
 `create_time` only returns for positive speed and length -/
 theorem timeTerm_nonneg (m : TravModel α) (edges : List (EdgeRec α)) (ftu : TimeUnit) (e : Nat) :
